@@ -168,7 +168,28 @@ HostileVecs ==
     Vec("UpdateAccessStructure", << U16(65535), U16(0), U16(1) >>, "reject", "hostile length", NoFields),
     Vec("TransactionSignature", << U8(255), U8(0), U8(255), U8(0), U16(65535), R(1, 5) >>, "reject", "hostile length", NoFields) }
 
-AllVectors == HostileVecs \cup HeaderVecs \cup HeaderV1Vecs \cup TxSigVecs \cup PayloadVecs \cup CredKeysVecs \cup UAccVecs \cup RateVecs \cup FracVecs \cup TxVecs
+(* UpdatePayload variants with numeric constraints.  Tag 15: pool parameters = 3 passive commissions (fractions), 3 commission ranges
+   (min, max inclusive: min <= max, a single point is a range), minimum equity capital u64, capital bound (fraction), leverage bound
+   numerator/denominator u64 (>= 1, in lowest terms).  Tag 19: minimum block time (ms, u64).  Tag 20: block energy limit u64. *)
+Pool(rng, lev) == << U8(15), U32(1), U32(2), U32(100000) >> \o rng \o rng \o rng \o << U64(5000), U32(25000), U64(lev[1]), U64(lev[2]) >>
+Rng(a, b) == << U32(a), U32(b) >>
+PoolVecs ==
+  { Vec("UpdatePayload", Pool(Rng(r[1], r[2]), <<3, 1>>), "accept", "canonical", NoFields) : r \in { <<0, 100000>>, <<5, 5>>, <<0, 0>>, <<100000, 100000>>, <<10, 20>> } }
+  \cup { Vec("UpdatePayload", Pool(Rng(20, 10), <<3, 1>>), "reject", "inverted range", NoFields),
+         Vec("UpdatePayload", Pool(Rng(0, 100001), <<3, 1>>), "reject", "fraction above one", NoFields),
+         Vec("UpdatePayload", Pool(Rng(1, 2), <<1, 1>>), "accept", "canonical", NoFields),
+         Vec("UpdatePayload", Pool(Rng(1, 2), <<7, 2>>), "accept", "canonical", NoFields),
+         Vec("UpdatePayload", Pool(Rng(1, 2), <<1, 2>>), "reject", "leverage below one", NoFields),
+         Vec("UpdatePayload", Pool(Rng(1, 2), <<4, 2>>), "reject", "leverage not in lowest terms", NoFields),
+         Vec("UpdatePayload", Pool(Rng(1, 2), <<1, 0>>), "reject", "zero denominator", NoFields),
+         Vec("UpdatePayload", << U8(19), U64(1000) >>, "accept", "canonical", NoFields),
+         Vec("UpdatePayload", << U8(20), U64(2147483647) >>, "accept", "canonical", NoFields),
+         Vec("UpdatePayload", << U8(20), U32(7) >>, "reject", "truncated", NoFields),
+         Vec("UpdatePayload", << U8(0), U64(1) >>, "reject", "undefined update tag", NoFields),
+         Vec("UpdatePayload", << U8(25), U64(1) >>, "reject", "undefined update tag", NoFields),
+         Vec("UpdatePayload", << U8(255) >>, "reject", "undefined update tag", NoFields) }
+
+AllVectors == PoolVecs \cup HostileVecs \cup HeaderVecs \cup HeaderV1Vecs \cup TxSigVecs \cup PayloadVecs \cup CredKeysVecs \cup UAccVecs \cup RateVecs \cup FracVecs \cup TxVecs
 
 VARIABLE vec
 WInit == vec \in AllVectors
